@@ -248,13 +248,13 @@ func runC07() int {
 		"tasks_truncated":     truncated,
 		"workloads":           len(c07Workloads()),
 		"scripted_fault_runs": scriptRuns,
-		"scripted_families":   "stale-leader-tail (leader isolated with 1..k unreplicated entries, new leader acknowledges 1..k writes, heal, restarts of {none, old leader, all, new leader}); follower-lag (follower isolated over 1..k writes, heal, restarts); remove-node (rconf delete of every node id through every node, before / after a write, local-shortcut and replicated spelling, then two more writes and reads on the remaining nodes)",
+		"scripted_families":   "stale-leader-tail (leader isolated with 1..k unreplicated entries, new leader acknowledges 1..k writes, heal, restarts of {none, old leader, all, new leader}); follower-lag (follower isolated over 1..k writes, heal, restarts); remove-node (rconf delete of every node id through every node, before / after a write, local-shortcut and replicated spelling, then two more writes and reads on the remaining nodes); add-node (rconf add of a fourth node through each node, the new node started with --join before / after the change commits, writes, reads on all four, restarts of the new node / of everybody); rconf-malformed (11 malformed rconf commands: no node may go down)",
 		"race_pass_ran":       raceRan,
 		"race_pass_runs":      raceRuns,
 		"race_reports":        raceReports,
 	}
 	return rep.Finish(cov, []string{
-		"rafthttp transport, the raft.Node channel wrapper, OS-level kill and TCP are replaced by the simulator; membership changes: removal of a node only (scripted family), the transport's peers are stubs",
+		"rafthttp transport, the raft.Node channel wrapper, OS-level kill and TCP are replaced by the simulator; membership changes are exercised by the scripted families only (one change per run); the transport's peers are stubs",
 		"a node crash is a process crash: everything written to files survives (sector loss is C16's fault model)",
 	})
 }
